@@ -412,6 +412,102 @@ pub fn print_qasm(c: &Circ) -> String {
     s
 }
 
+/// The same circuit written with the other spellings OpenQASM 2 allows: several registers,
+/// the built-in `CX` next to qelib's `cx`, angles as `k*pi/d`, `pi*k/d`, a pi-multiple plus a
+/// decimal, or plain decimal radians, comment lines. Returns the text and the circuit it
+/// denotes: angles with a decimal part denote (pi-part + f32(decimal)/pi), stored as a
+/// fraction over 2^40 (the reader keeps decimals in single precision, so these cases are judged
+/// with the tolerance TOL_DECIMAL).
+pub fn print_qasm_variants(c: &Circ, r: &mut Rng) -> (String, Circ) {
+    print_qasm_variants_opt(c, r, true)
+}
+
+/// `decimals = false`: only the spellings that denote exactly the given circuit
+pub fn print_qasm_variants_opt(c: &Circ, r: &mut Rng, decimals: bool) -> (String, Circ) {
+    let n = c.n;
+    // registers
+    let nreg = if n >= 2 { 1 + r.below(3.min(n)) } else { 1 };
+    let mut cuts: Vec<usize> = (1..n).collect();
+    r.shuffle(&mut cuts);
+    cuts.truncate(nreg - 1);
+    cuts.sort();
+    cuts.push(n);
+    let names = ["q", "anc", "r2"];
+    let mut qname: Vec<String> = vec![];
+    let mut s = String::from("OPENQASM 2.0;\n");
+    if r.chance(0.8) {
+        s += "include \"qelib1.inc\";\n";
+    }
+    let mut lo = 0;
+    for (k, &hi) in cuts.iter().enumerate() {
+        s += &format!("qreg {}[{}];\n", names[k], hi - lo);
+        for i in 0..(hi - lo) {
+            qname.push(format!("{}[{}]", names[k], i));
+        }
+        lo = hi;
+    }
+    // classical registers that nothing uses: before, between or after the quantum ones they
+    // must not change anything (sizes below, equal to and above the number of qubits)
+    if r.chance(0.4) {
+        let k = *r.pick(&[1usize, 2, n, n + 1, n + 3]);
+        s += &format!("creg c[{}];\n", k.max(1));
+        if r.chance(0.3) {
+            s += "creg flags[2];\n";
+        }
+    }
+    let mut out = Circ { n, gates: vec![] };
+    let dec_pool: [f32; 8] = [0.1, 0.25, -0.3, 0.5, 1.5, 0.001, 2.0, -0.75];
+    let to_frac = |x: f64| -> (i64, i64) {
+        let d = 1i64 << 40;
+        let q = quizx::phase::Phase::new(num::rational::Rational64::new((x * d as f64).round() as i64, d)).to_rational();
+        (*q.numer(), *q.denom())
+    };
+    for g in &c.gates {
+        if r.chance(0.08) {
+            s += "// cx q[0], q[1];\n";
+        }
+        let qs: Vec<String> = g.qubits().iter().map(|&q| qname[q].clone()).collect();
+        match g {
+            G::Cx(..) if r.chance(0.4) => {
+                s += &format!("CX {},{};\n", qs[0], qs[1]);
+                out.gates.push(g.clone());
+            }
+            G::Rz(q, p) | G::Rx(q, p) => {
+                let name = if matches!(g, G::Rz(..)) { "rz" } else { "rx" };
+                let (k, d) = *p;
+                let (arg, ph): (String, (i64, i64)) = match r.below(if decimals { 5 } else { 2 }) {
+                    0 => (format!("{k}*pi/{d}"), *p),
+                    1 => (format!("pi*{k}/{d}"), *p),
+                    2 => {
+                        let dec = *r.pick(&dec_pool);
+                        (format!("{k}*pi/{d} + {dec}"), to_frac(k as f64 / d as f64 + dec as f64 / std::f64::consts::PI))
+                    }
+                    3 => {
+                        let dec = *r.pick(&dec_pool);
+                        (format!("{dec} + pi*{k}/{d}"), to_frac(k as f64 / d as f64 + dec as f64 / std::f64::consts::PI))
+                    }
+                    _ => {
+                        let dec = *r.pick(&dec_pool);
+                        (format!("{dec}"), to_frac(dec as f64 / std::f64::consts::PI))
+                    }
+                };
+                s += &format!("{name}({arg}) {};\n", qs[0]);
+                out.gates.push(if name == "rz" { G::Rz(*q, ph) } else { G::Rx(*q, ph) });
+            }
+            _ => {
+                let one = print_qasm(&Circ { n, gates: vec![g.clone()] });
+                // the gate line of the plain printer, with the register names substituted
+                let line = one.lines().last().unwrap_or("");
+                let head = line.split(' ').next().unwrap_or("");
+                s += &format!("{head} {};\n", qs.join(", "));
+                out.gates.push(g.clone());
+            }
+        }
+    }
+    (s, out)
+}
+
+
 pub fn circ_hash(c: &Circ) -> u64 {
     hash_bytes(format!("{c:?}").as_bytes())
 }
